@@ -341,6 +341,14 @@ def order_check(ctx, b, an, tn):
         if len(calls) != 1:
             return False, "expected one is_some_and call"
         bi, t = calls[0]
+        # "previous" is the element stored last: the Option tested comes from `last()` (windows must increase from one to the
+        # next; comparing with the first element accepts 0, 2, 1)
+        defs = mu.defs_of(b)
+        lasts = mu.calls(b, r"<impl \[T\]>::last$")
+        src = mu.origin_local(b, defs, mu.op_local(t["args"][0]))
+        if len(lasts) != 1 or lasts[0][1]["dest"]["p"] or src != lasts[0][1]["dest"]["l"]:
+            return False, "the window compared with is not the one stored last (`last()`): %s" % (
+                [c2["callee"]["def"].split("::")[-1] for _b, c2 in mu.calls(b, r"<impl \[T\]>::(first|last|get|iter)$")] or "no last() call")
         sw = b.blocks[t["target"]]["term"]
         if sw["t"] != "switch":
             return False, "result of is_some_and is not branched on"
